@@ -438,14 +438,21 @@ impl Job {
         let mut result = ExecutionResult::success();
 
         while let Some(task) = self.tasks.back_mut() {
-            match task.wait().await? {
-                JobTaskWaitResult::Completed(execution_result) => {
+            match task.wait().await {
+                Ok(JobTaskWaitResult::Completed(execution_result)) => {
                     result = execution_result;
                     self.tasks.pop_back();
                 }
-                JobTaskWaitResult::Stopped => {
+                Ok(JobTaskWaitResult::Stopped) => {
                     self.state = JobState::Stopped;
                     return Ok(ExecutionResult::stopped());
+                }
+                // A task that ended with an error has ended all the same: it must not be
+                // awaited again, nor keep the caller from waiting for the remaining jobs.
+                Err(err) => {
+                    tracing::debug!(target: trace_categories::JOBS, "job {} task failed: {err}", self.id);
+                    result = ExecutionResult::general_error();
+                    self.tasks.pop_back();
                 }
             }
         }
